@@ -51,9 +51,9 @@ def c19_case(draw):
                                 containers=('0d', 'len1', 'vec', 'vec', 'vec')))
         xform = draw(st.sampled_from(['list', 'array']))
     else:
-        xform = draw(st.sampled_from(['list', 'array', 'grid']))
+        xform = draw(st.sampled_from(['list', 'array', 'grid', 'gridF']))
         container = ('0d', '0d', 'len1')
-        if xform == 'grid':
+        if xform in ('grid', 'gridF'):
             grid = list(draw(st.sampled_from(GRIDS)))
             base = draw(mv.mv_cases(n=grid[0] * grid[1], kinds=KINDS, containers=container))
         else:
@@ -111,7 +111,7 @@ class C19(Prop):
     title = 'nd_scipy wrappers return the Jacobian/gradient and respect bounds'
     rule = ('Hypothesis draws f: R^n -> R^m (n 1..6, m 1..5; 0-d, length-1 and length-m outputs) from '
             'nverif.oracle.multivar (affine with dense asymmetric A, quadratic, ridge programs over the C01 '
-            'operation set), x_l = +-10^U(-3, 2) as list / array / n1 x n2 array (Gradient), method in '
+            'operation set), x_l = +-10^U(-3, 2) as list / array / n1 x n2 array in C or Fortran memory order (Gradient), method in '
             '{central, forward, complex}, step None or 10^U(-8, -3) (scaled down when 2 * stencil-width * h '
             '* |a_j| would leave rho_cert/2 of a ridge factor), 0..2 extra positional arguments and 0..2 '
             'keywords, and in 2/3 of the cases a box: per coordinate interior / x on the lower or upper face '
@@ -125,6 +125,9 @@ class C19(Prop):
         'truncation term T follows from Cauchy estimates on the certified disc (no free constant); rounding '
         'constant C_R calibrated >= 10x above the worst ratio over 8 seeds',
         'scipy.optimize._numdiff.approx_derivative semantics for rel_step / bounds (read from scipy 1.18)',
+        'clause relative-step (a given step s moves coordinate j by s*|x_j|, asserted without a box and for '
+        's >= 1e-12) rests on the quantifier of the property ("relative steps None or given") and on the '
+        'docstring, which states the default steps as multiples of x',
     )
     constants = {'FLOOR_eps_multiple': FLOOR, 'AFFINE_CS_eps_multiple': AFFINE_CS, 'C_R': C_R}
     examples = {'quick': 500, 'thorough': 10000}
@@ -145,6 +148,8 @@ class C19(Prop):
             x_in = [float(v) for v in x]
         elif case['xform'] == 'grid':
             x_in = xa.reshape(case['grid'])
+        elif case['xform'] == 'gridF':              # same logical array, Fortran memory order
+            x_in = np.asfortranarray(xa.reshape(case['grid']))
         else:
             x_in = xa
         # step: keep 2 * width * h_j inside the certified reach of coordinate j
@@ -247,6 +252,13 @@ class C19(Prop):
                 raise Violation('forwarded', 'no evaluation point moves coordinate %d' % j)
             mags = [abs(o) for o in offs]
             h, reach = min(mags), max(mags)
+            # a given step is relative (rel_step of approx_derivative): without a box the offsets are
+            # +-step*|x_j| up to the rounding of (x + h) - x
+            if step is not None and bounds is None and step >= 1e-12:
+                ctx.count('relative-step clause asserted')
+                if abs(h - step * abs(xa[j])) > 1e-3 * step * abs(xa[j]):
+                    raise Violation('relative-step', 'step=%r at x[%d]=%r: smallest offset %.6g, expected '
+                                    'step*|x| = %.6g' % (step, j, xa[j], h, step * abs(xa[j])), j=j)
             is_cs = any(np.iscomplex(o) for o in offs)
             if (method == 'complex') != is_cs:
                 raise Violation('method', 'method=%s but the offsets of coordinate %d are %s' % (
